@@ -17,7 +17,12 @@ type concGen struct {
 	k     int // block ids 1..k
 	ops   []cOp
 	cbs   []int // store 2: OnPut callbacks registered before the goroutines start (1 = once-only)
+	fam   int   // > 0: some keys are drawn from fam key families (equal digest bytes, see cMhKey)
 }
+
+// famID: a member of a key family: same digest bytes under different CID versions, codecs and
+// multihash codes
+func (g *concGen) famID() int { return 100 + 10*g.r.Intn(g.fam) + g.r.Intn(6) }
 
 func (g *concGen) add(tid, phase, kind int, ids ...int) {
 	if ids == nil {
@@ -26,7 +31,12 @@ func (g *concGen) add(tid, phase, kind int, ids ...int) {
 	g.ops = append(g.ops, cOp{Tid: tid, Kind: kind, Ids: ids, Phase: phase})
 }
 
-func (g *concGen) id() int { return 1 + g.r.Intn(g.k) }
+func (g *concGen) id() int {
+	if g.fam > 0 && g.r.Chance(30) {
+		return g.famID()
+	}
+	return 1 + g.r.Intn(g.k)
+}
 
 func (g *concGen) ids(n int) []int {
 	out := make([]int, 0, n)
@@ -98,12 +108,12 @@ func (g *concGen) tail(kinds []int) {
 
 func concScenarios(store int) []string {
 	if store == 0 {
-		return []string{"dup-puts", "keys-while-putting", "keys-while-putting", "finalize-vs-readers", "read-your-writes", "mixed"}
+		return []string{"dup-puts", "keys-while-putting", "keys-while-putting", "finalize-vs-readers", "read-your-writes", "mixed", "shared-digest"}
 	}
 	if store == 2 {
-		return []string{"dup-puts", "finalize-vs-readers", "read-your-writes", "mixed", "deferred-callbacks", "deferred-callbacks"}
+		return []string{"dup-puts", "finalize-vs-readers", "read-your-writes", "mixed", "shared-digest", "deferred-callbacks", "deferred-callbacks"}
 	}
-	return []string{"dup-puts", "finalize-vs-readers", "read-your-writes", "mixed"}
+	return []string{"dup-puts", "finalize-vs-readers", "read-your-writes", "mixed", "shared-digest"}
 }
 
 // callbacks draws n OnPut callbacks; with mixed, at least one once-only and one persistent one.
@@ -147,7 +157,41 @@ func genConcWorkload(r *RNG, thorough bool) (concWork, string, int) {
 		return 1 + r.Intn(8)
 	}
 	scen := pick(r, concScenarios(g.store))
+	if scen != "keys-while-putting" && scen != "read-your-writes" && r.Chance(35) {
+		g.fam = 1 + r.Intn(2)
+	}
 	switch scen {
+	case "shared-digest":
+		// every key is a member of one or two families: blocks whose CIDs carry the same digest bytes
+		// under different multihash codes are distinct keys, the same multihash under different codecs /
+		// CID versions is one key; each goroutine puts members and asks for what it has put
+		g.fam = 1 + r.Intn(2)
+		for i, n := 0, r.Intn(3); i < n; i++ {
+			g.add(0, 0, cPut, g.famID())
+		}
+		for t := 1; t <= g.g; t++ {
+			for i, n := 0, opsPer(); i < n; i++ {
+				id := g.famID()
+				if g.store == 0 && r.Chance(20) {
+					g.add(t, 1, cPutMany, id, g.famID())
+				} else {
+					g.add(t, 1, cPut, id)
+				}
+				if r.Chance(70) {
+					g.read(t, 1, id)
+					i++
+				}
+				if g.store == 0 && r.Chance(10) {
+					g.add(t, 1, cAllKeys)
+				}
+			}
+		}
+		for f := 0; f < g.fam; f++ {
+			for v := 0; v < 6; v++ {
+				g.read(0, 2, 100+10*f+v)
+			}
+		}
+		g.add(0, 2, cFinalize)
 	case "dup-puts":
 		// few ids, many writers: most puts meet an id somebody else is putting
 		g.k = 2 + r.Intn(11)
@@ -357,6 +401,12 @@ func init() {
 			}
 			if r.IndexOK != 1 {
 				c.Count("observed/index-bad")
+			}
+			for _, o := range w.Ops {
+				if len(o.Ids) > 0 && o.Ids[0] >= 100 {
+					c.Count("option/key-families")
+					break
+				}
 			}
 			if len(w.Cbs) > 0 {
 				c.Count("option/onput-callbacks")
